@@ -105,6 +105,10 @@ def gen_mimebundle(rng, rich=True):
         b['application/vnd.custom+json'] = rng.choice([{'v': 1}, {'v': 2}, [1, 2]])
     if rich and rng.random() < 0.1:
         b['image/svg+xml'] = '<svg>\n<circle r="%d"/>\n</svg>' % rng.randrange(3)
+    if rich and rng.random() < 0.08:
+        b[rng.choice(['image/JPEG', 'text/LaTeX', 'Text/Plain'])] = rng.choice(B64 + ['x^2', 'caps'])
+    if rich and rng.random() < 0.04:
+        return {}
     if not b:
         b['text/plain'] = 'x'
     return b
